@@ -8,7 +8,7 @@
     where the Go code enumerates a map an explicit key list accompanies the function. *)
 From Coq Require Import ZArith List Bool.
 Import ListNotations.
-Open Scope Z_scope.
+Local Open Scope Z_scope.
 
 Definition addr := Z.
 Definition key := Z.
